@@ -208,6 +208,29 @@ func writeVia(d sceneDesc, sc gltf.PolyformScene, x *docs) (glb, txt writeResult
 	return glb, txt
 }
 
+// checkExtras: the material entry node j's primitive refers to carries the extras of model j's material (fix fd7cca0:
+// materials that differ only in their extras used to be merged)
+func checkExtras(d sceneDesc, s summary) string {
+	live := liveModels(d)
+	if len(s.Nodes) < len(live) {
+		return ""
+	}
+	for j, mo := range live {
+		nd := s.Nodes[j]
+		if mo.Material < 0 || nd.Mesh == nil || *nd.Mesh < 0 || *nd.Mesh >= len(s.Meshes) || len(s.Meshes[*nd.Mesh].Prims) != 1 {
+			continue
+		}
+		mi := s.Meshes[*nd.Mesh].Prims[0].Mat
+		if mi == nil || *mi < 0 || *mi >= len(s.Mats) {
+			continue // reported by the Coq checker
+		}
+		if want, got := extrasClass(d.Materials[mo.Material].Extras), s.Mats[*mi].Extras; want != got {
+			return fmt.Sprintf("model %d: its material has extras class %d, the material entry %d it refers to has %d", j, want, *mi, got)
+		}
+	}
+	return ""
+}
+
 func sceneCase(d sceneDesc) hx.Case {
 	x := observe(d)
 	c := hx.Case{Kind: "scene", Desc: d, Nontriv: x.live, Key: "s|" + x.key}
@@ -223,6 +246,12 @@ func sceneCase(d sceneDesc) hx.Case {
 	}
 	if msg := checkPayload(x.rd, x.st, x.pt); msg != "" {
 		x.setFail("gltf:payload", ".gltf: "+msg)
+	}
+	if msg := checkExtras(x.rd, x.sg); msg != "" {
+		x.setFail("gltf:material-extras-merged", "GLB: "+msg)
+	}
+	if msg := checkExtras(x.rd, x.st); msg != "" {
+		x.setFail("gltf:material-extras-merged", ".gltf: "+msg)
 	}
 	if big && !bytes.Equal(x.pt, x.pg[:min(len(x.pt), len(x.pg))]) {
 		x.setFail("gltf:payload", "the two containers carry different buffers")
